@@ -197,13 +197,15 @@ class RealCluster:
 
 class ClusterSuite(Suite):
     name = 'cluster'
-    prelude = 'From Sup Require Import Node Cluster.\nOpen Scope Z_scope.'
+    prelude = 'From Sup Require Import Node Cluster ClusterSpec.\nOpen Scope Z_scope.'
     case_type = 'ccase'
     evals = {'mismatches': 'cmismatches'}
     shard_size = 40
 
-    def __init__(self, evals=None, quick=(150, 120), thorough=(3000, 600)):
+    def __init__(self, evals=None, quick=(150, 120), thorough=(3000, 600), quiet_rounds=0, convergent_cfg=False):
         self._clock = False
+        self.quiet_rounds = quiet_rounds
+        self.convergent_cfg = convergent_cfg
         self.node_suite = NodeSuite()
         if evals:
             self.evals = dict(evals)
@@ -224,6 +226,10 @@ class ClusterSuite(Suite):
         notifications are chosen among the enabled ones; faults (crash, restart, cut, heal) are sprinkled """
         self.ensure_clock()
         cfg = self.node_suite.gen_cfg(rng)
+        if self.convergent_cfg:
+            # proviso of C08: the synchronisation condition can be met (TIMEOUT selected) and the failure strategy
+            # is not SHUTDOWN (TIMEOUT forces CONTINUE); the other options stay random
+            cfg.update(timeout=True, fstrategy='CONTINUE', user=False)
         members = sorted(rng.sample(range(1, 7), rng.choice([2, 2, 3, 3, 4])))
         if rng.random() < 0.7 and 1 not in members:
             members[0] = 1
@@ -279,7 +285,48 @@ class ClusterSuite(Suite):
             try:
                 cl.apply(a)
             except Exception:
-                break
+                return (cfg, members, acts)
+        if self.quiet_rounds:
+            # disturbances stop: every link is healed, nobody crashes any more; K rounds of (tick every live
+            # instance, then serve every handshake / notification / publication until nothing is pending)
+            quiet = [(False, False, False)] * drv_node.N_ORC
+            try:
+                for (i, j) in sorted(cl.cut):
+                    a = ('AHeal', i, j)
+                    acts.append(a)
+                    cl.apply(a)
+                for _ in range(self.quiet_rounds):
+                    for i in members:
+                        if cl.up[i]:
+                            now += 5
+                            a = ('ATick', i, now, quiet)
+                            acts.append(a)
+                            cl.apply(a)
+                    progress = True
+                    while progress:
+                        progress = False
+                        for i in members:
+                            if not cl.up[i]:
+                                continue
+                            while cl.pending[i]:
+                                now += 1
+                                a = ('AHandshake', i, now)
+                                acts.append(a)
+                                cl.apply(a)
+                                progress = True
+                            while cl.inbox[i]:
+                                a = ('ANotify', i, now, quiet)
+                                acts.append(a)
+                                cl.apply(a)
+                                progress = True
+                            for j in members:
+                                while cl.chan.get((j, i)):
+                                    a = ('ADeliver', i, j, now, quiet)
+                                    acts.append(a)
+                                    cl.apply(a)
+                                    progress = True
+            except Exception:
+                pass
         return (cfg, members, acts)
 
     def execute(self, inp):
